@@ -8,6 +8,7 @@ import (
 	"os"
 	"path"
 	"path/filepath"
+	"regexp"
 	"sort"
 	"strings"
 	"time"
@@ -19,6 +20,7 @@ type Tgt struct {
 	Deps    []string `json:"deps"`    // labels of function targets
 	ReadDep []string `json:"readDep"` // the dependencies whose generated files the body reads
 	Srcs    []string `json:"srcs"`    // root-relative paths: files, directories, generated files of other targets
+	Glob    string   `json:"glob,omitempty"` // additionally: sources=glob([Glob]) evaluated in the package directory (`**/*.txt`, `*.txt`, `d0/**`)
 	Gens    []string `json:"gens"`    // root-relative paths
 	Always  bool     `json:"always"`
 	Default bool     `json:"default"`
@@ -132,9 +134,74 @@ func sourceLabelOf(p string) string {
 
 func defaultLabel(pkg string) string { return "//" + pkg + ":default" }
 
+// globRE mirrors util.CompileGlobs for the patterns the generator uses (`**` any characters, `*` any but `/`).
+func globRE(pat string) *regexp.Regexp {
+	var sb strings.Builder
+	sb.WriteString("^(?:")
+	for i := 0; i < len(pat); i++ {
+		switch {
+		case pat[i] == '*' && i+1 < len(pat) && pat[i+1] == '*':
+			sb.WriteString(".*")
+			i++
+		case pat[i] == '*':
+			sb.WriteString("[^/]*")
+		default:
+			sb.WriteString(regexp.QuoteMeta(string(pat[i])))
+		}
+	}
+	sb.WriteString(")$")
+	return regexp.MustCompile(sb.String())
+}
+
+// globMatches: what glob([t.Glob]) returns in t's package: every FILE below the package directory (sub-packages
+// included, the build state excluded) whose path relative to the package matches — sources, build files, helper
+// module, generated files that exist. Only the generator's own patterns are supported, and they are chosen so that
+// they select plain source files only (`.txt`, or everything below a source directory).
+func (p *Proj) globMatches(t *Tgt) []string {
+	if t.Glob == "" {
+		return nil
+	}
+	re := globRE(t.Glob)
+	prefix := ""
+	if t.Pkg != "" {
+		prefix = t.Pkg + "/"
+	}
+	var out []string
+	for f := range p.Files {
+		if !strings.HasPrefix(f, prefix) {
+			continue
+		}
+		if re.MatchString(f[len(prefix):]) {
+			out = append(out, f)
+		}
+	}
+	sort.Strings(out)
+	return out
+}
+
+func (p *Proj) hasGlob() bool {
+	for _, t := range p.Tgts {
+		if t.Glob != "" {
+			return true
+		}
+	}
+	return false
+}
+
+// srcsOf: the declared sources of t: the explicit list, then what its glob matches now
+func (p *Proj) srcsOf(t *Tgt) []string {
+	out := append([]string{}, t.Srcs...)
+	for _, f := range p.globMatches(t) {
+		if !contains(out, f) {
+			out = append(out, f)
+		}
+	}
+	return out
+}
+
 // readPaths: what the body of t reads, as root-relative paths.
 func (p *Proj) readPaths(t *Tgt) []string {
-	out := append([]string{}, t.Srcs...)
+	out := p.srcsOf(t)
 	for _, d := range t.ReadDep {
 		if dt := p.tgt(d); dt != nil {
 			out = append(out, dt.Gens...)
@@ -271,7 +338,11 @@ func (p *Proj) renderBuild(pkg string) string {
 		}
 		var deps []string
 		deps = append(deps, t.Deps...)
-		kw := fmt.Sprintf("name=%q, deps=%s, sources=%s, generates=%s", t.Name, quoteList(deps, ""), quoteList(t.Srcs, "/"), quoteList(t.Gens, "/"))
+		srcs := quoteList(t.Srcs, "/")
+		if t.Glob != "" {
+			srcs += fmt.Sprintf(" + glob([%q])", t.Glob)
+		}
+		kw := fmt.Sprintf("name=%q, deps=%s, sources=%s, generates=%s", t.Name, quoteList(deps, ""), srcs, quoteList(t.Gens, "/"))
 		if t.Always {
 			kw += ", always=True"
 		}
@@ -368,7 +439,9 @@ func (e *Edit) apply(p *Proj, root string) error {
 			if err := os.MkdirAll(filepath.Dir(abs(e.Path)), 0o755); err != nil {
 				return err
 			}
-			return os.WriteFile(abs(e.Path), []byte(e.Text), 0o644)
+			if err := os.WriteFile(abs(e.Path), []byte(e.Text), 0o644); err != nil {
+				return err
+			}
 		}
 	case "samecontent":
 		if root != "" {
@@ -395,7 +468,9 @@ func (e *Edit) apply(p *Proj, root string) error {
 			delete(p.Files, e.Path)
 			p.Files[e.To] = c
 			if root != "" {
-				return os.Rename(abs(e.Path), abs(e.To))
+				if err := os.Rename(abs(e.Path), abs(e.To)); err != nil {
+					return err
+				}
 			}
 		}
 	case "code":
@@ -472,6 +547,12 @@ func (e *Edit) apply(p *Proj, root string) error {
 		rebuild = true
 	default:
 		return fmt.Errorf("unknown edit %q", e.Kind)
+	}
+	switch e.Kind {
+	case "content", "create", "delete", "rename":
+		if p.hasGlob() {
+			rebuild = true
+		}
 	}
 	if rebuild && root != "" {
 		return p.writeBuildFiles(root)
@@ -638,7 +719,7 @@ func (p *Proj) modelDefs(n *numbering, fps map[string]string) []string {
 		for _, d := range t.Deps {
 			deps = append(deps, n.label(d))
 		}
-		for _, s := range t.Srcs {
+		for _, s := range p.srcsOf(t) {
 			deps = append(deps, n.label(sourceLabelOf(s)))
 			reads = append(reads, n.label(sourceLabelOf(s)))
 			if !srcSeen[s] {
